@@ -289,8 +289,25 @@ def primitives(ctx, spec):
         if b is None:
             continue
         consts = binop_consts(ctx, b)
-        ok = ("BitAnd", 127) in consts and ("Shr", 7) in consts and ("BitOr", 128) in consts and ("Shr", 6) in consts \
+        # the shift must be logical: either the signed idiom (v >> 7) & (MAX >> 6), or the value is shifted as an unsigned integer
+        unsigned_shift = False
+        for blk in b.blocks:
+            if blk.cleanup:
+                continue
+            for s0 in blk.stmts:
+                if s0.kind == "assign" and s0.rv.k == "binop" and s0.rv.j["op"] in ("Shr", "ShrUnchecked") and not b.is_noise(s0) \
+                        and s0.rv.ops[0].place is not None and str(b.locals[s0.rv.ops[0].place.local].get("s", "")).startswith("u"):
+                    unsigned_shift = True
+        ok = ("BitAnd", 127) in consts and ("Shr", 7) in consts and ("BitOr", 128) in consts and (("Shr", 6) in consts or unsigned_shift) \
             and (("Eq", 0) in consts or ("Ne", 0) in consts)
+        # the number of groups is decided by the value itself (emit until the shifted value is 0), not pre-computed from its bit length
+        precomp = [nm for _, t0 in b.calls() if not b.is_noise(t0) for nm in [(cname(t0) or dname(t0)).split("::")[-1]]
+                   if nm in ("leading_zeros", "trailing_zeros", "ilog2", "ilog", "checked_ilog2", "count_ones", "count_zeros", "div_ceil", "next_multiple_of")]
+        precomp += ["%s %s" % c for c in consts if c[0] in ("Div", "Rem") and c[1] == 7]
+        ctx.check(not precomp, R, "C09/primitives-shape/%s/value-driven" % fn, b.loc,
+                  reason="%s computes how many groups to emit from the bit length of the value (%s) instead of emitting until the shifted value is 0: "
+                         "off-by-one group counts produce over-long encodings" % (fn, sorted(set(precomp))),
+                  detail="%s: group count is value-driven" % fn)
         ctx.check(ok, R, "C09/primitives-shape/%s/loop" % fn, b.loc,
                   reason="%s: expected low 7 bits, logical shift by 7 ((v >> 7) & (MAX >> 6)), continuation bit 0x80, stop at 0; constants seen %s" % (fn, sorted(consts)),
                   detail="%s: emit v & 0x7f | 0x80 while (v >>> 7) != 0" % fn)
